@@ -560,5 +560,5 @@ def run(ctx):
     matrix_valued_search(ctx)
     fused_search(ctx)
     from props import basis_meas
-    basis_meas.run(ctx, PROP, ['copy', 'deepcopy', 'deepcopy-twice', 'on_qubits-identity', 'on_qubits-shifted', 'add-empty'])
+    basis_meas.run(ctx, PROP, ['copy', 'deepcopy', 'deepcopy-twice', 'on_qubits-identity', 'on_qubits-shifted', 'add-empty', 'invert-invert', 'deepcopy-invert-invert'])
     ctx.notes.append("per class: symbolic obligations (all parameter values) for dagger, dagger∘controlled_by, controlled_by(1,2), on_qubits, and the same after a parameter update; numeric search on the real methods incl. 3 controls and random relabellings; random circuits for invert/copy/+/on_qubits")
